@@ -69,6 +69,28 @@ Theorem cell_fn_stats_local : forall (S : Scalar) post e ch na cpost (st st' : l
 Proof. exact EncodersProofs.cell_fn_stats_local. Qed.
 Print Assumptions cell_fn_stats_local.
 
+(* column j's embedding reads column j's PARAMETER BLOCK only: entry j of every per-column parameter
+   tensor / list, and for EmbeddingEncoder's shared table the padding row and the rows
+   offset(j) + 1 .. offset(j) + ncat(j) its categories address (`enc_agree_at`, Model/Encoders.v).
+   Models the einsum / per-column loops of stype_encoder.py: LinearEncoder 'ij,jk->ijk',
+   bucket / periodic 'ijk,jkl->ijl', timestamp 'ijkl,jklm->ijm', EmbeddingEncoder feat + offset + 1,
+   the per-column EmbeddingBag / weight_list loops. *)
+Theorem cell_fn_params_local :
+  forall (S : Scalar) (post : list (X (car S)) -> list (X (car S))) (e e' : encoder S) st ch na cpost j v,
+    enc_agree_at S st j e e' ->
+    cell_in_block S st j (na_cell S na (nth j st (dstats S)) v) ->
+    cell_fn S (Build_config S e st ch na cpost) post j v = cell_fn S (Build_config S e' st ch na cpost) post j v.
+Proof. exact EncodersProofs.cell_fn_params_local. Qed.
+Print Assumptions cell_fn_params_local.
+
+(* hypotheses satisfiable: every block but column 1's is changed, column 1's embedding stays *)
+Example params_local_example :
+  let st := [qcs (XFin 1%Q) (XFin 2%Q) [] 0 0%Z [] [] [] 0; qcs (XFin 0%Q) (XFin 1%Q) [] 0 0%Z [] [] [] 0] in
+  let e := ELinear QS (gmat 0 0 2 2) (gmat 1 0 2 2) in
+  enc_agree_at QS st 1 e (reblock st 1 e) /\ reblock st 1 e <> e /\
+  check_param_local (qconfig e st 2 None) (InNum QS [[XFin 3%Q; XNaN]; [XFin (1 # 2)%Q; XFin 7%Q]]) true = true.
+Proof. repeat split; try (vm_compute; reflexivity). vm_compute. discriminate. Qed.
+
 (* NA = None: a missing cell is embedded as the all-zero vector, before the post-module.
    Every class except TimestampEncoder (see timestamp_none_missing_raises). *)
 Theorem na_none_zero : forall (S : Scalar) (c : config S) j v,
